@@ -2,6 +2,7 @@ from __future__ import annotations
 
 import ast
 import copy
+import inspect
 import logging
 from typing import (
     Any,
@@ -452,6 +453,11 @@ class ObjectStream(Generic[T]):
 
         # The executor gets a copy: back ends run ast transformers over what they are handed,
         # and those rewrite nodes in place - the nodes of this stream and of its relatives.
-        return await exe(copy_ast(remove_empty_metadata(self._q_ast)), title)
+        result = exe(copy_ast(remove_empty_metadata(self._q_ast)), title)
+        # An executor "can be synchronous or coroutine": only the latter hands back something
+        # to wait for.
+        if inspect.isawaitable(result):
+            result = await result
+        return result
 
     value = make_sync(value_async)
